@@ -603,7 +603,6 @@ class Array:
     def get_future_slice(self, s: slice) -> List[Future]:
         """Get a list of Futures each representing one element in a particular
         array slice"""
-        range_args = []
         for attr in ["start", "stop", "step"]:
             x = getattr(s, attr)
             if x is not None:
@@ -612,8 +611,10 @@ class Array:
                         "Future slices can only be specified by integers at this point, "
                         f"not {type(x)}"
                     )
-                range_args.append(x)
-        return [self.get_future_index(index) for index in range(*range_args)]
+        # NOTE: omitted bounds must keep their position (slice(1, None) is not range(1))
+        return [
+            self.get_future_index(index) for index in range(*s.indices(len(self)))
+        ]
 
     def foreach(self) -> SdkForEachContext:
         """Create a context of code that gets called for each element in the array.
